@@ -14,7 +14,9 @@ Correspondence (Corr/C06.v, Model/Errors.v), all numeric comparisons on SQUARED 
     sub-problem (what the code reports) AND the residual from scratch -- they must coincide exactly -- and compares with (reported)^2;
   * HOOI: (reported)^2 against the model of the shortcut |norm^2 - norm(core)^2| (KHooi) and against the residual from scratch (KTucker);
   * convergence-stopped runs (tol > 0): the last reported value against the returned decomposition (break paths);
-  * skeleton traces: number of reports / callbacks / block updates / break for chosen decision sequences.
+  * skeleton traces: number of reports / callbacks / block updates / break for chosen decision sequences;
+  * direct calls of cp_normalize / tucker_normalize against the executed models (answer tape of column norms, validated by squaring);
+  * static tie (C06_ast.py): error expressions / iprod pairing / line-search test regenerated from the Python ast, identities re-proved by coqc.
 Predicates (Python, float64, independent of Coq): finiteness, callback values == returned list, recomputed error, the list of the
 longest prefix run restricted to k entries equals the list of the k-run (every list entry belongs to the iterate of its iteration)."""
 import itertools, random, math, io, contextlib, json, os
@@ -591,6 +593,13 @@ class Collector:
             self.meta.append(dict(meta, what=meta["what"] + " [Qops cross-check of the dyadic execution]"))
         return cid
 
+    def add_q(self, lit, meta, expect_fail=False):
+        """a case executed with Qops only (models that divide: the dyadic carrier has no division)"""
+        cid = len(self.cases)
+        self.cases.append(f"({cid}%nat, inr {lit(LQ)})")
+        self.meta.append(dict(meta, expect_fail=expect_fail))
+        return cid
+
 
 def describe(name, entry, X, kind, rank, k, seed, opts):
     o = {kk: (vv if not isinstance(vv, np.ndarray) else {"array": vv}) for kk, vv in opts.items()}
@@ -928,6 +937,102 @@ def parafac2_error_cases(col, tier, rng):
                             "C06_parafac2_error", observed=rep * rep, expected=mine)
 
 
+# ----------------------------------------------------------------------------- direct calls of cp_normalize / tucker_normalize
+def _nums_q(xs):
+    xs = list(xs)
+    return "[" + "; ".join(LQ.num(x) for x in xs) + "]" if xs else "nil"
+
+
+def normalize_inputs(rs, shape, R, variant):
+    """(weights or None, factors) for one direct cp_normalize call; the variants reach every branch of the function: weights None,
+    positive, of mixed sign, with a zero entry (the absorption into factor 0), a zero column (scale replaced by 1)"""
+    integer = variant.endswith("int")
+    draw = (lambda *sh: rs.randint(-3, 4, sh).astype(float)) if integer else (lambda *sh: rs.standard_normal(sh))
+    fs = [draw(d, R) for d in shape]
+    for f in fs:                                  # no accidental zero columns
+        for r in range(R):
+            if not np.any(f[:, r]):
+                f[0, r] = 1.0
+    w = None
+    if variant.startswith("pos"):
+        w = rs.uniform(0.5, 2.0, R) if not integer else rs.randint(1, 4, R).astype(float)
+    elif variant.startswith("mixed"):
+        w = rs.uniform(0.5, 2.0, R) * np.where(np.arange(R) % 2 == 0, -1.0, 1.0)
+    elif variant.startswith("zero_w"):
+        w = rs.uniform(0.5, 2.0, R); w[rs.randint(R)] = 0.0
+    elif variant.startswith("zero_col0"):
+        w = rs.uniform(0.5, 2.0, R) * rs.choice([-1.0, 1.0], R); fs[0][:, rs.randint(R)] = 0.0
+    elif variant.startswith("zero_colk"):
+        w = rs.uniform(0.5, 2.0, R); fs[len(shape) - 1][:, rs.randint(R)] = 0.0
+    return w, fs
+
+
+def normalize_cases(col, tier, rng):
+    """cp_normalize / tucker_normalize called directly: the model (Model/Errors.v: cp_normalize_F, tucker_normalize_core / _factors, executed
+    with Qops) gets the column norms as an answer tape, validates it by squaring and must reproduce the returned weights / core / factors;
+    Python predicate: the represented tensor is unchanged and every value is finite"""
+    from tensorly.cp_tensor import cp_normalize
+    from tensorly.tucker_tensor import tucker_normalize
+    chk = col.chk
+    q = tier == "quick"
+    shapes = [(3, 4), (2, 3, 4), (3, 2, 2, 3)] if q else [(3, 4), (5, 2), (2, 3, 4), (3, 3, 3), (3, 2, 2, 3)]
+    variants = ["none", "pos", "mixed", "zero_w", "zero_col0", "zero_colk", "pos_int", "none_int"]
+    entry = "tensorly.cp_tensor.cp_normalize"
+    for shape in shapes:
+        for vi, variant in enumerate(variants):
+            rs = np.random.RandomState(rng.randrange(2 ** 31))
+            R = 1 + (vi + len(shape)) % 3
+            w, fs = normalize_inputs(rs, shape, R, variant)
+            st, out = C.call_impl(cp_normalize, (None if w is None else np.array(w), [np.array(f) for f in fs]))
+            inputs = {"weights": w, "factors": fs, "variant": variant}
+            if st != "ok":
+                chk.hist("skipped", f"cp_normalize {variant}: {str(out)[:50]}"); continue
+            w2, fs2 = np.array(out[0], dtype=float), [np.array(f, dtype=float) for f in out[1]]
+            F0 = fs[0] * (np.ones(R) if w is None else w)
+            sc = [np.linalg.norm(F0, axis=0)] + [np.linalg.norm(f, axis=0) for f in fs[1:]]
+            before, after = cp_dense(w, fs), cp_dense(w2, fs2)
+            scale = max(1.0, float(np.max(np.abs(before))))
+            bad = (not np.all(np.isfinite(w2)) or any(not np.all(np.isfinite(f)) for f in fs2)
+                   or len(fs2) != len(fs) or before.shape != after.shape or float(np.max(np.abs(before - after))) > 1e-9 * scale)
+            lit = (lambda P, w=w, fs=fs, sc=sc, w2=w2, fs2=fs2:
+                   f"(KNormalize {P.opt_w(w)} {P.ts(fs)} [{'; '.join(_nums_q(x) for x in sc)}] {_nums_q(w2)} {P.ts(fs2)})")
+            col.add_q(lit, dict(inputs=inputs, what="cp_normalize: returned (weights, factors) vs Model/Errors.v:cp_normalize_F", entry=entry), expect_fail=bad)
+            chk.count(key=("cp_normalize", shape, R, variant), nontrivial=variant != "none")
+            chk.hist("kind", "cp_normalize")
+            if bad:
+                chk.finding(entry, inputs, f"cp_normalize ({variant}) changed the represented tensor (or returned non-finite values): max deviation "
+                            f"{float(np.max(np.abs(before - after))) if before.shape == after.shape else 'shape'}", "C06_normalize_keeps_tensor",
+                            observed=after, expected=before)
+    entry = "tensorly.tucker_tensor.tucker_normalize"
+    for shape in shapes:
+        for variant in ("generic", "zero_col", "int"):
+            rs = np.random.RandomState(rng.randrange(2 ** 31))
+            rk = [int(rs.randint(1, min(d, 3) + 1)) for d in shape]
+            draw = (lambda *sh: rs.randint(-3, 4, sh).astype(float)) if variant == "int" else (lambda *sh: rs.standard_normal(sh))
+            G = draw(*rk); fs = [draw(d, r) for d, r in zip(shape, rk)]
+            if variant == "zero_col":
+                k = int(rs.randint(len(shape))); fs[k][:, int(rs.randint(rk[k]))] = 0.0
+            st, out = C.call_impl(tucker_normalize, (np.array(G), [np.array(f) for f in fs]))
+            inputs = {"core": G, "factors": fs, "variant": variant}
+            if st != "ok":
+                chk.hist("skipped", f"tucker_normalize {variant}: {str(out)[:50]}"); continue
+            G2, fs2 = np.array(out[0], dtype=float), [np.array(f, dtype=float) for f in out[1]]
+            sc = [np.linalg.norm(f, axis=0) for f in fs]
+            before, after = tucker_dense(G, fs), tucker_dense(G2, fs2) if G2.shape == G.shape else None
+            scale = max(1.0, float(np.max(np.abs(before))))
+            bad = (after is None or not np.all(np.isfinite(G2)) or any(not np.all(np.isfinite(f)) for f in fs2)
+                   or float(np.max(np.abs(before - after))) > 1e-9 * scale)
+            lit = (lambda P, G=G, fs=fs, sc=sc, G2=G2, fs2=fs2:
+                   f"(KTuckerNormalize {P.t(G)} {P.ts(fs)} [{'; '.join(_nums_q(x) for x in sc)}] {P.t(G2)} {P.ts(fs2)})")
+            col.add_q(lit, dict(inputs=inputs, what="tucker_normalize: returned (core, factors) vs Model/Errors.v:tucker_normalize_core / _factors", entry=entry),
+                      expect_fail=bad)
+            chk.count(key=("tucker_normalize", shape, tuple(rk), variant), nontrivial=True)
+            chk.hist("kind", "tucker_normalize")
+            if bad:
+                chk.finding(entry, inputs, f"tucker_normalize ({variant}) changed the represented tensor (or returned non-finite values)",
+                            "C06_normalize_keeps_tensor", observed=after, expected=before)
+
+
 # ----------------------------------------------------------------------------- main
 def gen_runs(tier, rng):
     shapes = SHAPES_Q if tier == "quick" else SHAPES_T
@@ -1036,6 +1141,10 @@ def run(chk):
     C.reset_backends()
     _install_local_known()
     col = Collector(chk)
+    # static tie (harness/props/C06_ast.py): the expression under each shortcut's square root, the iprod pairing, the MTTKRP weights and
+    # the line-search test of the CURRENT source are translated from the Python ast and coqc re-proves the C06 identities for them
+    from harness.props import C06_ast
+    C06_ast.run_ast_tie(chk)
     skipped = 0
     nruns = 0
     ls_seen = {}
@@ -1095,6 +1204,7 @@ def run(chk):
         prefix_consistency(chk, name, entry, X, kind, rank, seed, o, recs)
     error_calc_cases(col, chk.tier, rng)
     parafac2_error_cases(col, chk.tier, rng)
+    normalize_cases(col, chk.tier, rng)
     trace_cases(col, chk.tier, rng)
     try:
         event_cases(col, chk.tier, rng)
@@ -1177,6 +1287,19 @@ def replay(payload):
         rep = float(out) / normX; mine = p2_rel2(it)
         bad = not math.isfinite(rep) or not close(mine, rep * rep)
         print("replay _parafac2_reconstruction_error:", rep * rep, "vs", mine, "->", "fails" if bad else "holds")
+        return 1 if bad else 0
+    if payload["predicate"] == "C06_normalize_keeps_tensor":
+        fs = [arr(f) for f in inp["factors"]]
+        if "core" in inp:
+            from tensorly.tucker_tensor import tucker_normalize
+            G = arr(inp["core"]); out = tucker_normalize((np.array(G), [np.array(f) for f in fs]))
+            before, after = tucker_dense(G, fs), tucker_dense(np.array(out[0], dtype=float), [np.array(f, dtype=float) for f in out[1]])
+        else:
+            from tensorly.cp_tensor import cp_normalize
+            w = arr(inp["weights"]); out = cp_normalize((None if w is None else np.array(w), [np.array(f) for f in fs]))
+            before, after = cp_dense(w, fs), cp_dense(np.array(out[0], dtype=float), [np.array(f, dtype=float) for f in out[1]])
+        bad = before.shape != after.shape or not np.all(np.isfinite(after)) or float(np.max(np.abs(before - after))) > 1e-9 * max(1.0, float(np.max(np.abs(before))))
+        print("replay normalize:", "fails" if bad else "holds")
         return 1 if bad else 0
     name = inp["config"]
     cfgs = {c[0]: c for c in configs("thorough")}
